@@ -21,11 +21,16 @@
 (***************************************************************************)
 EXTENDS FlatBody
 
-CONSTANTS MaxLen, MaxDepth, Names
+CONSTANTS MaxLen, MaxDepth, Names,
+          NeedResult, \* TRUE: only modules in which some function ends with `return:` and a result are finished
+          MinFns,    \* only modules with at least this many function bodies are finished (and emitted)
+          MaxFns     \* number of function bodies of a module (1 = the single body of the first build round)
 
 Item(k, n) == [k |-> k, n |-> n]
 Items == {Item(k, "") : k \in Openers \cup {"C"}}
            \cup {Item(k, n) : k \in GotoKinds \cup {"L"}, n \in Names}
+           \cup {Item("F", "x")}      \* end of one function body, start of the next (FlatBody.tla)
+           \cup {Item("RV", "x")}     \* the result expression; `return:` is the label in front of it
 
 (***************************************************************************)
 (* R -- the rule (docs/features.md "Scoped goto statements", property C04) *)
@@ -52,12 +57,21 @@ RECURSIVE SchedBlock(_, _, _), SchedChain(_, _), SchedSeq(_, _, _)
 SchedPart(b, p) ==
     IF b[p].k \in Openers
     THEN <<<<"push", p>>>> \o SchedBlock(b, p + 1, CloseOf(b, p) - 1) \o <<<<"pop", p>>>>
-    ELSE IF b[p].k \in GotoKinds THEN <<<<"use", p>>>> ELSE <<<<"decl", p>>>>
+    ELSE IF b[p].k \in GotoKinds THEN <<<<"use", p>>>>
+    ELSE IF b[p].k = "L" THEN <<<<"decl", p>>>>
+    ELSE <<>>      \* other statements (declarations, assignments, loop, the result expression) are not looked at
 SchedChain(b, p) == SchedPart(b, p) \o (IF HasElse(b, p) THEN SchedChain(b, PartEnd(b, p) + 1) ELSE <<>>)
 SchedSeq(b, starts, x) == IF x > Len(starts) THEN <<>>
                           ELSE SchedChain(b, starts[x]) \o SchedSeq(b, starts, x + 1)
 SchedBlock(b, lo, hi) == SchedSeq(b, Reverse(StmtStarts(b, lo, hi)), 1)
 Sched(b) == <<<<"push", 0>>>> \o SchedBlock(b, 1, Len(b)) \o <<<<"pop", 0>>>>
+\* a module: the functions one after the other (the analyzer, and with it label_stack and
+\* resolution_id, lives as long as the module); positions are those of the whole item sequence
+LiftSched(f, s) == [x \in 1..Len(s) |-> <<s[x][1], s[x][2] + f>>]
+RECURSIVE MSchedFrom(_, _)
+MSchedFrom(b, f) == LiftSched(f, Sched(Seg(b, f)))
+                       \o (IF FEnd(b, f) > Len(b) THEN <<>> ELSE MSchedFrom(b, FEnd(b, f)))
+MSched(b) == MSchedFrom(b, 0)
 
 (***************************************************************************)
 (* A -- label_references.rs.  st is label_stack: a sequence of scopes,     *)
@@ -105,6 +119,12 @@ Init == /\ body = <<>> /\ opens = <<>> /\ last = "none" /\ phase = "gen"
 Add(it) ==
     /\ phase = "gen" /\ Len(body) < MaxLen
     /\ (it.k \in ElseKinds) => last = "if"
+    /\ (it.k = "F") => (opens = <<>> /\ Cardinality(FStarts(body)) < MaxFns)
+    \* `return:` only as the last statement of a function body, followed by the result expression
+    \* (docs/features.md: `goto return;`); nothing but the next function follows the result
+    /\ (it.k = "L" /\ it.n = "return") => opens = <<>>
+    /\ (it.k = "RV") = (Len(body) > 0 /\ body[Len(body)] = Item("L", "return"))
+    /\ (Len(body) > 0 /\ body[Len(body)].k = "RV") => it.k = "F"
     /\ CASE it.k \in Openers ->
               /\ Len(opens) < MaxDepth
               /\ opens' = Append(opens, it.k) /\ last' = "none"
@@ -118,8 +138,10 @@ Add(it) ==
     /\ body' = Append(body, it)
     /\ UNCHANGED <<phase, sched, k, alg>>
 
-Finish == /\ phase = "gen" /\ opens = <<>>
-          /\ phase' = "scan" /\ sched' = Sched(body) /\ k' = 1 /\ alg' = AInit
+Finish == /\ phase = "gen" /\ opens = <<>> /\ Cardinality(FStarts(body)) >= MinFns
+          /\ (Len(body) > 0 => body[Len(body)] # Item("L", "return"))
+          /\ NeedResult => \E i \in 1..Len(body) : body[i].k = "RV"
+          /\ phase' = "scan" /\ sched' = MSched(body) /\ k' = 1 /\ alg' = AInit
           /\ UNCHANGED <<body, opens, last>>
 
 Scan == /\ phase = "scan" /\ k <= Len(sched)
@@ -137,17 +159,20 @@ Spec == Init /\ [][Next]_vars
 (* Invariants.                                                             *)
 (***************************************************************************)
 \* the scoper's stack discipline: never pops below the function scope while scanning
-StackOK == phase = "scan" /\ k > 1 /\ k <= Len(sched) => Len(alg.st) >= 1
+\* (between two functions the stack is empty: the next step pushes the scope of a function body)
+StackOK == phase = "scan" /\ k > 1 /\ k <= Len(sched) =>
+              IF sched[k][1] = "push" /\ sched[k][2] \in FStarts(body) THEN alg.st = <<>> ELSE Len(alg.st) >= 1
 \* A |= R at the level of the property statement
 Agree == phase = "end" =>
             /\ alg.st = <<>>
-            /\ alg.e400 = RuleE400(body)
-            /\ (alg.e420 = {}) = (RuleClashMembers(body) = {})
-            /\ alg.e420 \subseteq RuleClashMembers(body)
-            /\ alg.n420 = Cardinality(RuleClashEarlier(body))
+            /\ alg.e400 = MRuleE400(body)
+            /\ (alg.e420 = {}) = (MRuleClashMembers(body) = {})
+            /\ alg.e420 \subseteq MRuleClashMembers(body)
+            /\ alg.n420 = Cardinality(MRuleClashEarlier(body))
 \* forward/outward: every goto the rule accepts has exactly the targets the scoper would pick from
 ForwardOutward == phase = "end" =>
-            \A i \in 1..Len(body) : IsG(body, i) /\ ~BadGoto(body, i) =>
-                \A j \in LegalTargets(body, i) : j > i /\ Encloses(body, BlockOf(body, j), i)
+            \A f \in FStarts(body) : LET s == Seg(body, f) IN
+              \A i \in 1..Len(s) : IsG(s, i) /\ ~BadGoto(s, i) =>
+                \A j \in LegalTargets(s, i) : j > i /\ Encloses(s, BlockOf(s, j), i)
 
 =============================================================================
